@@ -83,7 +83,11 @@ TextRoundTrip(i, j) ==     \* the text form lists the simplices in filtration or
   /\ act' = [op |-> "text_round_trip", i |-> i, j |-> j] /\ UNCHANGED buf
 
 KJ(k) == {[s |-> SortedSeq(s), f |-> k[s]] : s \in DOMAIN k}
-ObjJ(o) == [i \in Slots |-> [live |-> o[i].live, k_set |-> KJ(o[i].k)]]
+(* the filtration-ordered range (value, then reverse lexicographic order): part of "observationally equal" - a copy *)
+(* or an assigned object lists ITS simplices, whatever cache the target held before                                *)
+FiltOrder(k) == SetToSortSeq(DOMAIN k, LAMBDA s, t : k[s] < k[t] \/ (k[s] = k[t] /\ RevLex(s, t)))
+ObjJ(o) == [i \in Slots |-> [live |-> o[i].live, k_set |-> KJ(o[i].k),
+                             filt |-> [n \in DOMAIN FiltOrder(o[i].k) |-> SortedSeq(FiltOrder(o[i].k)[n])]]]
 (* equality of two live objects is equality of their payloads *)
 EqJ(o) == {[i |-> w[1], j |-> w[2], eq |-> (o[w[1]].k = o[w[2]].k)] : w \in {x \in Slots \X Slots : o[x[1]].live /\ o[x[2]].live /\ x[1] < x[2]}}
 =============================================================================
